@@ -66,10 +66,15 @@ func runBounded(repo, prop string) []BoundedResult {
 		cancel()
 		res.WallS = time.Since(start).Seconds()
 		txt := string(o)
-		done := regexp.MustCompile(`GOVC-BOUNDED-DONE \S+ cases=(\d+) failures=(\d+)`).FindStringSubmatch(txt)
-		if done != nil {
-			fmt.Sscanf(done[1], "%d", &res.Cases)
-			fmt.Sscanf(done[2], "%d", &res.Failures)
+		dones := regexp.MustCompile(`GOVC-BOUNDED-DONE \S+ cases=(\d+) failures=(\d+)`).FindAllStringSubmatch(txt, -1)
+		var done []string
+		for _, d := range dones {
+			done = d
+			var c, f int
+			fmt.Sscanf(d[1], "%d", &c)
+			fmt.Sscanf(d[2], "%d", &f)
+			res.Cases += c
+			res.Failures += f
 		}
 		res.OK = err == nil && done != nil && res.Failures == 0
 		if !res.OK {
